@@ -14,14 +14,13 @@ on a failed one), the `nData` counter with the final `; ouch` check, unknown opc
 The name arrays come from the generated `Deco87C` (dumped from the current deco87c800.c).
 
 Things the C code does that the model keeps:
-* `ld sp,rr` / `ld rr,sp` / `call rr` / `jp rr` (register prefix, FA/FB/FC/FE) print `Reg16Names[Opcode & 3]` – the low bits of
-  the *opcode* – instead of the prefix register;
-* `alu r,n` (register prefix, 70…77) prints the immediate without the `h` suffix;
-* every symbolic jump target is followed by `h` (`lab_1234h`);
-* `ld (hl),<mem>` (memory prefix, 27) does not call `SimpleNextAddress`; `ret`/`reti`/`retn` do;
-* label `inv16:` stands in front of `case 0xfa:` whose first statement is `if (SrcRegIndex > 3) goto inv16;` – a 16-bit
-  register operation behind a prefix E C…EF never leaves that loop (`RegSel.hang`);
-* `SimpleNextAddress` reduces with `% 0xffff`.
+* `ld (hl),<mem>` (memory prefix, 27) does not call `SimpleNextAddress`;
+* `SimpleNextAddress` reduces with `% 0xffff`;
+* a 16-bit register operation behind a register prefix EC…EF (`goto inv16`) and E9…EB 04 end in the `default:` branch of
+  `RegPrefix` (unknown opcode, listed as data).
+(Repaired in deco87c800.c and followed here: no `h` behind symbolic jump targets; `alu r,n` with `h`; `ld sp,rr`/`ld rr,sp`/`call rr`/
+`jp rr` print the prefix register; `inv16` no longer loops; `ret`/`reti`/`retn` have no successor; `MakeSymbolic` puts the `0` in
+front of a hex number that starts with a letter.)
 
 `printf` lines of the callback (`unknown … opcode`) go to stdout, not stderr; `Disasm` has one list of message lines, so
 those lines are tagged with `stdoutMark` as their first character (the driver separates them again). -/
@@ -31,9 +30,6 @@ open AslModel.Generated
 
 /-- first character of a message line the C code writes with `printf` (stdout) instead of `fprintf(stderr, …)` -/
 def stdoutMark : Char := Char.ofNat 1
-
-/-- message the model emits instead of not terminating (`inv16` loop) -/
-def hangMark : String := "<<deco87c800: endless loop at inv16>>"
 
 def r8 (i : Nat) : String := String.singleton (Deco87C.reg8Names.getD i '?')
 def r16 (i : Nat) : String := Deco87C.reg16Names.getD i "?"
@@ -47,20 +43,22 @@ def zeroHex (lower : Bool) (n byteLen : Nat) : String :=
   | c :: _ => if c.isDigit then String.ofList h else String.ofList ('0' :: h)
   | [] => "0"
 
-/-- `MakeSymbolic` of deco87c800.c.  Without a prefix the number is rendered for a `dw` line: `0` is put in front when the
-first hex digit IS a decimal digit (sic), then `h`/`H` follows. -/
+/-- the number `MakeSymbolic` renders when there is no symbol prefix: `2*AddrLen` hex digits, a `0` in front unless the first one
+is a decimal digit -/
+def symbolicHex (lower : Bool) (a addrLen : Nat) : List Char :=
+  let h := hexChars lower a (addrLen * 2)
+  match h with
+  | c :: _ => if c.isDigit then h else '0' :: h
+  | [] => ['0']
+
+/-- `MakeSymbolic` of deco87c800.c.  Without a prefix the number is rendered for a `dw` line, followed by `h`/`H`. -/
 def makeSymbolic (lower : Bool) (syms : Syms) (a addrLen : Nat) (pfx : Option String) : String × Syms :=
   match syms.lookup a with
   | some n => (n, syms)
   | none =>
-    let h := hexChars lower a (addrLen * 2)
     match pfx with
-    | none =>
-      let h' := match h with
-        | c :: _ => if c.isDigit then '0' :: h else h
-        | [] => h
-      (String.ofList h' ++ (if lower then "h" else "H"), syms)
-    | some p => (p ++ String.ofList h, syms.add (p ++ String.ofList h) a)
+    | none => (String.ofList (symbolicHex lower a addrLen) ++ (if lower then "h" else "H"), syms)
+    | some p => (p ++ hexString lower a (addrLen * 2), syms.add (p ++ hexString lower a (addrLen * 2)) a)
 
 /-- the `while (Count > 0)` loop of `RetrieveData`: cut at 0x10000, continued at address 0 -/
 def retrieveDataF (img : Image) (lower : Bool) : Nat → Nat → Nat → Option (List Nat) × List String
@@ -149,8 +147,8 @@ def form1 (op : Nat) : Top :=
   else if op = 0x01 then .plain (P 0 [.s "swap\ta"])
   else if op = 0x02 then .plain (P 0 [.s "mul\tw,a"])
   else if op = 0x03 then .plain (P 0 [.s "div\twa,c"])
-  else if op = 0x04 then .plain (P 0 [.s "reti"])
-  else if op = 0x05 then .plain (P 0 [.s "ret"])
+  else if op = 0x04 then .plain ⟨0, false, .none, [.s "reti"], none⟩
+  else if op = 0x05 then .plain ⟨0, false, .none, [.s "ret"], none⟩
   else if op = 0x06 then .plain (P 0 [.s "pop\tpsw"])
   else if op = 0x07 then .plain (P 0 [.s "push\tpsw"])
   else if op = 0x0a then .plain (P 0 [.s "daa\ta"])
@@ -190,10 +188,10 @@ def form1 (op : Nat) : Top :=
   else if inR 0x68 0x6f op then .plain (P 0 [.s ("dec\t" ++ r8 (op % 8))])
   else if inR 0x70 0x77 op then .plain (P 1 [.s (alu (op % 8) ++ "\ta,"), .h8 0, .s "h"])
   else if inR 0x78 0x7f op then .plain (P 1 [.s (alu (op % 8) ++ "\ta,("), .h8 0, .s "h)"])
-  else if inR 0x80 0x9f op then .plain ⟨0, true, .rel5, [.s "jrs\tt,", .sym, .s "h"], none⟩
-  else if inR 0xa0 0xbf op then .plain ⟨0, true, .rel5, [.s "jrs\tf,", .sym, .s "h"], none⟩
-  else if inR 0xc0 0xcf op then .plain ⟨0, true, .vec, [.s ("callv\t" ++ toString (op % 16) ++ "\t ; "), .sym, .s "h"], none⟩
-  else if inR 0xd0 0xd7 op then .plain ⟨1, true, .rel8, [.s ("jr\t" ++ rel (op % 8) ++ ","), .sym, .s "h"], none⟩
+  else if inR 0x80 0x9f op then .plain ⟨0, true, .rel5, [.s "jrs\tt,", .sym], none⟩
+  else if inR 0xa0 0xbf op then .plain ⟨0, true, .rel5, [.s "jrs\tf,", .sym], none⟩
+  else if inR 0xc0 0xcf op then .plain ⟨0, true, .vec, [.s ("callv\t" ++ toString (op % 16) ++ "\t ; "), .sym], none⟩
+  else if inR 0xd0 0xd7 op then .plain ⟨1, true, .rel8, [.s ("jr\t" ++ rel (op % 8) ++ ","), .sym], none⟩
   else if inR 0xd8 0xdf op then .plain (P 1 [.s "test\t(", .h8 0, .s ("h)." ++ toString (op % 8))])
   else if op = 0xe0 ∨ op = 0xf0 then .mem 1 .abs
   else if op = 0xe1 ∨ op = 0xf1 then .mem 0 (.lit "(pc+a)")
@@ -205,10 +203,10 @@ def form1 (op : Nat) : Top :=
   else if op = 0xe7 ∨ op = 0xf7 then .mem 0 (.lit "(-hl)")
   else if inR 0xe8 0xef op then .reg (op % 8)
   else if op = 0xfa then .plain (P 2 [.s "ld\tsp,", .h16 0, .s "h"])
-  else if op = 0xfb then .plain ⟨1, false, .rel8, [.s "jr\t", .sym, .s "h"], none⟩
-  else if op = 0xfc then .plain ⟨2, true, .abs16 "sub_", [.s "call\t", .sym, .s "h"], none⟩
-  else if op = 0xfd then .plain ⟨1, true, .page, [.s "callp\t", .sym, .s "h"], none⟩
-  else if op = 0xfe then .plain ⟨2, false, .abs16 "lab_", [.s "jp\t", .sym, .s "h"], none⟩
+  else if op = 0xfb then .plain ⟨1, false, .rel8, [.s "jr\t", .sym], none⟩
+  else if op = 0xfc then .plain ⟨2, true, .abs16 "sub_", [.s "call\t", .sym], none⟩
+  else if op = 0xfd then .plain ⟨1, true, .page, [.s "callp\t", .sym], none⟩
+  else if op = 0xfe then .plain ⟨2, false, .abs16 "lab_", [.s "jp\t", .sym], none⟩
   else if op = 0xff then .plain (P 0 [.s "swi"])
   else .unknown
 
@@ -242,14 +240,12 @@ def formMem (op : Nat) : Option Form :=
 
 inductive RegSel where
   | ok (f : Form)
-  /-- `default` -/
+  /-- `default` (also the target of `goto inv16`) -/
   | unknown
-  /-- `goto inv16` with `SrcRegIndex > 3`: the jump target re-tests the same condition -/
-  | hang
 deriving Repr, DecidableEq, Inhabited
 
-/-- the cases of `RegPrefix` that start with `if (SrcRegIndex > 3) goto inv16;` -/
-def w16 (src : Nat) (f : Form) : RegSel := if src > 3 then .hang else .ok f
+/-- the cases of `RegPrefix` that start with `if (SrcRegIndex > 3) goto inv16;` (`inv16:` labels the `default:` branch) -/
+def w16 (src : Nat) (f : Form) : RegSel := if src > 3 then .unknown else .ok f
 
 /-- the `switch (Opcode)` of `RegPrefix` -/
 def formReg (src op : Nat) : RegSel :=
@@ -257,8 +253,8 @@ def formReg (src op : Nat) : RegSel :=
   else if op = 0x02 then w16 src (P 0 [.s ("mul\t" ++ r8 (src * 2 + 1) ++ "," ++ r8 (src * 2))])
   else if op = 0x03 then w16 src (P 0 [.s ("div\t" ++ r16 src ++ ",c")])
   else if op = 0x04 then
-    -- `if (SrcRegIndex > 0) goto inv16;` lands in the code of `case 0xfa`
-    if src = 0 then .ok (P 0 [.s "retn"]) else w16 src (P 0 [.s ("ld\tsp," ++ r16 (op % 4))])
+    -- `if (SrcRegIndex > 0) goto inv16;`
+    if src = 0 then .ok ⟨0, false, .none, [.s "retn"], none⟩ else .unknown
   else if op = 0x06 then w16 src (P 0 [.s ("pop\t" ++ r16 src)])
   else if op = 0x07 then w16 src (P 0 [.s ("push\t" ++ r16 src)])
   else if op = 0x0a then .ok (P 0 [.s ("daa\t" ++ r8 src)])
@@ -276,7 +272,7 @@ def formReg (src op : Nat) : RegSel :=
   else if inR 0x58 0x5f op then .ok (P 0 [.s ("ld\t" ++ r8 (op % 8) ++ "," ++ r8 src)])
   else if inR 0x60 0x67 op then .ok (P 0 [.s (alu (op % 8) ++ "\ta," ++ r8 src)])
   else if inR 0x68 0x6f op then .ok (P 0 [.s (alu (op % 8) ++ "\t" ++ r8 src ++ ",a")])
-  else if inR 0x70 0x77 op then .ok (P 1 [.s (alu (op % 8) ++ "\t" ++ r8 src ++ ","), .h8 0])
+  else if inR 0x70 0x77 op then .ok (P 1 [.s (alu (op % 8) ++ "\t" ++ r8 src ++ ","), .h8 0, .s "h"])
   else if inR 0x82 0x83 op then .ok (P 0 [.s ("set\t(" ++ r16 (op % 4) ++ ")." ++ r8 src)])
   else if inR 0x8a 0x8b op then .ok (P 0 [.s ("clr\t(" ++ r16 (op % 4) ++ ")." ++ r8 src)])
   else if inR 0x92 0x93 op then .ok (P 0 [.s ("cpl\t(" ++ r16 (op % 4) ++ ")." ++ r8 src)])
@@ -287,10 +283,10 @@ def formReg (src op : Nat) : RegSel :=
   else if inR 0xc8 0xcf op then .ok (P 0 [.s ("ld\t" ++ r8 src ++ "." ++ toString (op % 8) ++ ",cf")])
   else if inR 0xd0 0xd7 op then .ok (P 0 [.s ("xor\tcf," ++ r8 src ++ "." ++ toString (op % 8))])
   else if inR 0xd8 0xdf op then .ok (P 0 [.s ("ld\tcf," ++ r8 src ++ "." ++ toString (op % 8))])
-  else if op = 0xfa then w16 src (P 0 [.s ("ld\tsp," ++ r16 (op % 4))])
-  else if op = 0xfb then w16 src (P 0 [.s ("ld\t" ++ r16 (op % 4) ++ ",sp")])
-  else if op = 0xfc then w16 src ⟨0, true, .none, [.s ("call\t" ++ r16 (op % 4))], some "indirect jump, investigate here"⟩
-  else if op = 0xfe then w16 src ⟨0, false, .none, [.s ("jp\t" ++ r16 (op % 4))], some "indirect jump, investigate here"⟩
+  else if op = 0xfa then w16 src (P 0 [.s ("ld\tsp," ++ r16 src)])
+  else if op = 0xfb then w16 src (P 0 [.s ("ld\t" ++ r16 src ++ ",sp")])
+  else if op = 0xfc then w16 src ⟨0, true, .none, [.s ("call\t" ++ r16 src)], some "indirect jump, investigate here"⟩
+  else if op = 0xfe then w16 src ⟨0, false, .none, [.s ("jp\t" ++ r16 src)], some "indirect jump, investigate here"⟩
   else .unknown
 
 /-! ## rendering and successors -/
@@ -388,7 +384,6 @@ def prefixed (img : Image) (lower : Bool) (syms : Syms) (a op pl nData : Nat) (p
   | (some o2, _) =>
     let op2 := o2.getD 0 0
     match sel op2 with
-    | .hang => { syms := syms, nData := nData + 1, msgs := [hangMark], early := true }
     | .unknown => unknownPrefixed img lower syms a pl op2 (nData + 1) what
     | .ok f =>
       match retrieveData img lower (a + pl + 1) f.n with
@@ -459,13 +454,13 @@ def disassemble : Disasm := fun img lower syms a asData dataSize =>
   if r.early then (r.info, r.syms, r.msgs)
   else ({ r.info with src := ouch r.info.src r.nData r.info.len }, r.syms, r.msgs)
 
-/-- total length the two opcode bytes decide (0: the callback does not return) -/
+/-- total length the two opcode bytes decide -/
 def lenOf (op op2 : Nat) : Nat :=
   match form1 op with
   | .unknown => 1
   | .plain f => 1 + f.n
   | .mem n _ => (match formMem op2 with | some f => n + 2 + f.n | none => n + 2)
-  | .reg src => (match formReg src op2 with | .ok f => 2 + f.n | .unknown => 2 | .hang => 0)
+  | .reg src => (match formReg src op2 with | .ok f => 2 + f.n | .unknown => 2)
 
 /-- where the second opcode byte lies, if the first one is a prefix -/
 def prefixLen (op : Nat) : Nat :=
